@@ -125,6 +125,10 @@ func main() {
 		jobs = append(jobs, job{0, fmt.Sprintf("hammer %d 1", 1500*r.Scale)}, job{0, fmt.Sprintf("hammer %d 2", 1500*r.Scale)})
 		jobs = append(jobs, job{0, fmt.Sprintf("lockrace %d 1", 150*r.Scale)})
 		jobs = append(jobs, job{0, "taskpanic 1 false"}, job{0, "taskpanic 3 true"})
+		for w := 1; w <= 3; w++ {
+			jobs = append(jobs, job{0, runCfg{"silent-racing", w, false, 3, 12, 1, 3, uint64(30 + w)}.String()},
+				job{0, runCfg{"silent-restart", w, false, 1, 4, 1, 3, uint64(40 + w)}.String()})
+		}
 		// hive.go's debug mode (deadlock detector per task, closure stack traces): the same oracles must hold
 		jobs = append(jobs, job{0, runCfg{"debug-drain", 2, false, 2, 6, 1, 2, 21}.String()},
 			job{0, runCfg{"debug-pending", 3, true, 1, 6, 0, 2, 22}.String()},
@@ -157,6 +161,9 @@ func main() {
 			}
 			c := runCfg{mode: hx.Pick(rng, modes), w: rng.Range(1, 4), cancel: rng.Bool(), subs: rng.Range(1, 4),
 				tasks: rng.Range(1, 24), depth: rng.Intn(3), rounds: rng.Range(1, 3), seed: rng.U64() % 1000000}
+			if !c.cancel && c.seed%3 == 0 {
+				c.mode = "silent-" + c.mode // the option WithPanicOnSubmitAfterShutdown off: rejected submits return silently
+			}
 			jobs = append(jobs, job{sub, c.String()})
 		}
 	}
